@@ -10,7 +10,7 @@ earlier evaluations in place, and names mappings alternate between uses of the s
 """
 import copy
 
-from .. import boot, canon, gen, lang, monitors, badsrc, seams
+from .. import boot, canon, gen, lang, monitors, badsrc, seams, hooks
 from ..proggen import ProgGen
 from ..rng import Streams, weighted
 from ..seams import ENTROPY, make_cache
@@ -112,6 +112,7 @@ class Side:
         self.host = Host()
         self.spaces = [{k: lang.dec_value(v) for k, v in sp.items()} for sp in cfg['spaces']]
         self.results = []
+        self.tainted = False
         self.cache = None
         if cached:
             self.cache = make_cache(cfg['cache'])
@@ -127,7 +128,18 @@ def _call(side, op):
     try:
         if op['op'] == 'parse':
             return ['value', repr(side.parser.parse(op['src']))]
-        v = side.parser.eval(op['src'], side.spaces[op['space']], max_ops_evaluated=2000)
+        if side.cache is not None:
+            rec = monitors.Rec()
+            rec.track_kinds = False
+            rec.value_hooks = (hooks.address_taint_hook,)
+            try:
+                with monitors.recording(rec):
+                    v = side.parser.eval(op['src'], side.spaces[op['space']], max_ops_evaluated=2000)
+            finally:
+                if rec.tainted:
+                    side.tainted = True
+        else:
+            v = side.parser.eval(op['src'], side.spaces[op['space']], max_ops_evaluated=2000)
         if isinstance(v, (list, dict)):
             side.results.append(v)
         return ['value', canon.canon(v, monitors.M.fn_names)]
@@ -191,6 +203,9 @@ def execute(case, ctx):
         a = _call(A, op)
         b = _call(B, op)
         hit = A.cache.stats['hit'] > hits0
+        if A.tainted:
+            ctx.stats['stopped_after_address_text'] += 1
+            break           # a program stringified a function: the two worlds now differ by memory addresses only
         ctx.event(step, op['op'], canon.digest(a), hit)
         ctx.state(canon.digest([sorted(A.cache.d), a[0]]))
         what = 'step %d %s(%r) [cache %s%s]' % (step, op['op'], op['src'][:160], cfg['cache']['kind'], ', hit' if hit else '')
